@@ -40,6 +40,7 @@ type TaskResult struct {
 	States       int
 	SampleChoice []int
 	Ops          int
+	Restart      bool // the worker process has to be replaced after this task (a goroutine was left behind)
 }
 
 type seenKey struct {
@@ -225,5 +226,7 @@ func Worker(raw json.RawMessage) any {
 	case "durable":
 		judge = JudgeDurable
 	}
-	return Explore(t, judge)
+	res := Explore(t, judge)
+	res.Restart = NeedRestart
+	return res
 }
